@@ -983,6 +983,10 @@ func (c PrepareCallInstr) execute(env *Zlisp) error {
 				if g.varargs {
 					return env.wrangleOptargs(g.nargs, nargs)
 				}
+				if nargs != g.nargs {
+					return fmt.Errorf("%s expected %d arguments, got %d",
+						g.name, g.nargs, nargs)
+				}
 			}
 			return nil
 		}
@@ -995,6 +999,12 @@ func (c PrepareCallInstr) execute(env *Zlisp) error {
 			}
 			if f.varargs {
 				return env.wrangleOptargs(f.nargs, nargs)
+			}
+			// a tail call jumps past CallFunction, which is where an
+			// ordinary call has its argument count checked.
+			if nargs != f.nargs {
+				return fmt.Errorf("%s expected %d arguments, got %d",
+					f.name, f.nargs, nargs)
 			}
 		}
 	}
